@@ -59,18 +59,35 @@ def funcinit_instances(tier, fam='autoinit', safety=False):
     return L
 
 
-def instances(build, tier, seed):
-    L = data_instances(tier) + funcinit_instances(tier)
+def datastr_instances(tier, fam='datastr', safety=False):
+    L = []
     for w in (1, 2, 4):
         for snel in (2, 3):
             for sarr in (snel - 1, snel, snel + 2):
-                L.append(Inst('datastr.w%d.lit%d.arr%d' % (w, snel, sarr), 'h_datastr.c', {'W': w, 'SNEL': snel, 'SARR': sarr}, units=['eval', 'type', 'util'],
-                              overrides=['fatal', 'xmalloc'], native_units=ALLNATIVE, unwind=14, unwindset=['streq.0:22'] + ['main.%d:44' % i for i in range(8)],
-                              family='datastr', timeout=300, bound={'element_width': w, 'literal_elements': snel, 'array_elements': sarr, 'contents': 'symbolic'}))
+                # no override / override inside the literal / override beyond the literal (in the zero-extended tail)
+                for ovr in [None] + sorted({0, snel - 1, sarr - 1} & set(range(sarr))):
+                    defs = {'W': w, 'SNEL': snel, 'SARR': sarr}
+                    nm = '%s.w%d.lit%d.arr%d' % (fam, w, snel, sarr)
+                    if ovr is not None:
+                        defs['OVR'] = ovr
+                        nm += '.ovr%d' % ovr
+                    L.append(Inst(nm, 'h_datastr.c', defs, units=['eval', 'type', 'util'],
+                                  overrides=['fatal', 'xmalloc'], native_units=ALLNATIVE, unwind=14, unwindset=['streq.0:22'] + ['main.%d:44' % i for i in range(8)],
+                                  family=fam, safety=safety, timeout=300,
+                                  bound={'element_width': w, 'literal_elements': snel, 'array_elements': sarr, 'overridden_element': ovr, 'contents': 'symbolic'}))
+    return L
+
+
+def instances(build, tier, seed):
+    L = data_instances(tier) + funcinit_instances(tier)
+    L += datastr_instances(tier)
+    import initlib
+    L += initlib.static_instances(tier) + initlib.reject_instances(tier)
     for nold in ((2,) if tier == 'quick' else (2, 3, 4)):
-        L.append(Inst('initadd.old%d' % nold, 'h_initadd.c', {'NOLD': nold}, units=[], unwind=nold + 4, family='initadd',
-                      native_units=['util', 'token', 'expr', 'type', 'eval', 'decl', 'map', 'scope', 'targ', 'attr', 'stmt', 'utf', 'scan', 'pp', 'qbe', 'tree'],
-                      timeout=300 if tier == 'quick' else 1800, bound={'old_initializers': nold}))
+        for cont in range(1 << nold):
+            L.append(Inst('initadd.old%d.cont%d' % (nold, cont), 'h_initadd.c', {'NOLD': nold, 'CONT': cont}, units=[], unwind=nold + 4, unwindset=['initadd.0:%d' % (nold + 1), 'initadd.1:%d' % (nold + 2)], family='initadd',
+                          native_units=['util', 'token', 'expr', 'type', 'eval', 'decl', 'map', 'scope', 'targ', 'attr', 'stmt', 'utf', 'scan', 'pp', 'qbe', 'tree'],
+                          timeout=300 if tier == 'quick' else 1800, bound={'old_initializers': nold, 'containers (bit mask)': cont}))
     META['bounds'] = {'datastr': 'string-initialised arrays: element width 1/2/4, literal of 2-3 elements, array shorter/equal/longer, symbolic contents',
                       'data': 'lists of <= %d initializers (scalar / bit-field in every order), object <= 24 bytes' % (3 if tier == 'quick' else 4),
                       'initadd': 'valid lists of <= %d entries + 1 new' % (3 if tier == 'quick' else 4)}
